@@ -5,7 +5,14 @@ Input (stdin, JSON): {"problems": {pid: problem}, "cases": [run, ...], "spy": bo
             (the utility of an alternative is the sum of param * column; a null column is the constant 1)
   run     = {"pid", "params": [{"name", "init": hex, "lb": hex|null, "ub": hex|null, "fixed": bool}],
              "algorithm", "share": bool, "iter_start": {name: hex}|null, "settings": {parameter: value}|null,
-             "quick": bool (quick_estimate() instead of estimate())}
+             "quick": bool (quick_estimate() instead of estimate()),
+             "bootstrap": B|null (estimate(run_bootstrap=True) with bootstrap_samples=B, numpy seeded with "np_seed"),
+             "pre": [action], "post": [action]  (further calls on the SAME BIOGEME object before / after the estimation; after the
+             "post" actions the fields of the returned results object are exported again under "after"),
+             action = ["eval", {name: hex}, scaled] | ["like", {name: hex}] | ["check_derivatives", {name: hex}]
+                      | ["estimate_from", {name: hex}] | ["quick_from", {name: hex}]}
+  a problem with "kind": "expo" is the duration / count model  sum_n y_n log(lin_n) - lin_n t_n,  lin_n = sum_k param_k * column_k
+  ("lin": [[param, column-or-null]], columns "t" and optionally "y"): concave, undefined (NaN) where some lin_n < 0.
 Prints one line '@@<json list>' with one result per run (an exception is reported as data).
 Runs in the scratch cwd given by the harness (estimation may write __*.iter / biogeme.toml there)."""
 import json
@@ -41,7 +48,7 @@ def main():
     import biogeme.database as db
     import biogeme.biogeme as bio
     import biogeme.optimization as opt
-    from biogeme.expressions import Beta, Variable
+    from biogeme.expressions import Beta, Variable, log
     from biogeme import models
     from biogeme.parameters import Parameters
 
@@ -115,7 +122,14 @@ def main():
                     else:
                         rec['kwargs'][kk] = tok(v)
                 calls.append(rec)
-                return _real(*a, **k)
+                out = _real(*a, **k)
+                try:
+                    rec['ret_convergence'] = bool(out.convergence)
+                    rec['ret_solution'] = hxl(out.solution)
+                    rec['ret_cause'] = str((out.messages or {}).get('Cause of termination', ''))[:160]
+                except Exception as e:  # noqa
+                    rec['ret_error'] = repr(e)[:200]
+                return out
 
             setattr(opt, name, spy)
         real_min = opt.sc.minimize
@@ -131,7 +145,14 @@ def main():
                 o = k.get('options') or {}
                 rec['options'] = {kk: tok(v) for kk, v in o.items()}
                 calls.append(rec)
-                return real_min(fun, x0, *a, **k)
+                out = real_min(fun, x0, *a, **k)
+                try:
+                    rec['ret_convergence'] = bool(out.success)
+                    rec['ret_solution'] = hxl(out.x)
+                    rec['ret_cause'] = str(out.message)[:160]
+                except Exception as e:  # noqa
+                    rec['ret_error'] = repr(e)[:200]
+                return out
 
         opt.sc = SC()
 
@@ -146,7 +167,8 @@ def main():
         if pid not in frames:
             p = problems[pid]
             d = {c: [float.fromhex(v) for v in vals] for c, vals in p['cols'].items()}
-            d['choice'] = [int(c) for c in p['choice']]
+            if p.get('choice') is not None:
+                d['choice'] = [int(c) for c in p['choice']]
             frames[pid] = pd.DataFrame(d)
         return frames[pid]
 
@@ -165,14 +187,24 @@ def main():
             leaves.append(b)
             return b
 
-        V = {}
-        for alt, terms in p['alts'].items():
+        def linear(terms):
             v = None
             for prm, col in terms:
                 t = beta(prm) if col is None else beta(prm) * Variable(col)
                 v = t if v is None else v + t
-            V[int(alt)] = 0 if v is None else v
-        lp = models.loglogit(V, None, Variable('choice'))
+            return v
+
+        if p.get('kind') == 'expo':
+            lin = linear(p['lin'])
+            lin2 = linear(p['lin'])
+            first = log(lin) if 'y' not in p['cols'] else Variable('y') * log(lin)
+            lp = first - lin2 * Variable('t')
+        else:
+            V = {}
+            for alt, terms in p['alts'].items():
+                v = linear(terms)
+                V[int(alt)] = 0 if v is None else v
+            lp = models.loglogit(V, None, Variable('choice'))
         prm = Parameters()
         prm.set_value('generate_html', False, 'Output')
         prm.set_value('generate_pickle', False, 'Output')
@@ -218,16 +250,55 @@ def main():
                 with open(f'__{name}.iter', 'w', encoding='utf-8') as f:
                     for k, v in it.items():
                         print(f'{k} = {float.fromhex(v)!r}', file=f)
-            r = b.quick_estimate() if run.get('quick') else b.estimate()
+            def point(spec_):
+                vals = {x['name']: float.fromhex(x['init']) for x in run['params']}
+                vals.update({k: float.fromhex(v) for k, v in spec_.items()})
+                return np.array([vals[n] for n in b.id_manager.free_betas.names])
+
+            def act(a):
+                kind = a[0]
+                if kind == 'eval':
+                    b.calculate_likelihood_and_derivatives(point(a[1]), scaled=bool(a[2]), hessian=True, bhhh=True)
+                elif kind == 'like':
+                    b.calculate_likelihood(point(a[1]), scaled=False)
+                elif kind == 'check_derivatives':
+                    b.check_derivatives(point(a[1]), verbose=False)
+                elif kind == 'estimate_from':
+                    b.change_init_values({k: float.fromhex(v) for k, v in a[1].items()})
+                    b.estimate()
+                elif kind == 'quick_from':
+                    b.change_init_values({k: float.fromhex(v) for k, v in a[1].items()})
+                    b.quick_estimate()
+                else:
+                    raise ValueError('unknown action ' + str(kind))
+
+            def export(d):
+                return {
+                    'betaNames': list(d.betaNames), 'betaValues': hxl(d.betaValues),
+                    'logLike': hx(d.logLike), 'initLogLike': None if d.initLogLike is None else hx(d.initLogLike),
+                    'g': None if d.g is None else hxl(d.g), 'H': None if d.H is None else hxm(d.H),
+                    'bhhh': None if d.bhhh is None else hxm(d.bhhh),
+                    'convergence': bool(d.convergence),
+                    'cause': str((d.optimizationMessages or {}).get('Cause of termination', ''))[:160],
+                    'bootstrap': None if getattr(d, 'bootstrap', None) is None else hxm(d.bootstrap),
+                }
+
+            for a in run.get('pre') or []:
+                act(a)
+            del calls[:]
+            if run.get('bootstrap'):
+                np.random.seed(int(run.get('np_seed') or 0))
+                b.bootstrap_samples = int(run['bootstrap'])
+                import contextlib
+                import io
+                with contextlib.redirect_stderr(io.StringIO()):
+                    r = b.estimate(run_bootstrap=True)
+            else:
+                r = b.quick_estimate() if run.get('quick') else b.estimate()
             d = r.data
+            res.update(export(d))
             res.update({
                 'ok': True,
-                'betaNames': list(d.betaNames), 'betaValues': hxl(d.betaValues),
-                'logLike': hx(d.logLike), 'initLogLike': None if d.initLogLike is None else hx(d.initLogLike),
-                'g': None if d.g is None else hxl(d.g), 'H': None if d.H is None else hxm(d.H),
-                'bhhh': None if d.bhhh is None else hxm(d.bhhh),
-                'convergence': bool(d.convergence),
-                'cause': str((d.optimizationMessages or {}).get('Cause of termination', ''))[:160],
                 'res_bounds': [[None if x.lb is None else hx(x.lb), None if x.ub is None else hx(x.ub)] for x in d.betas],
                 'res_values': hxl([x.value for x in d.betas]),
                 'get_beta_values': {k: hx(v) for k, v in r.get_beta_values().items()},
@@ -236,7 +307,12 @@ def main():
                 'idm_expr_after': {n: hx(e.initValue) for n, e in b.id_manager.free_betas.expressions.items()},
                 'files': sorted(os.listdir('.')),
                 'calls': list(calls),
+                'has_converged': bool(r.algorithm_has_converged()),
             })
+            if run.get('post'):
+                for a in run['post']:
+                    act(a)
+                res['after'] = export(d)
             # ---- recomputation by a FRESH object (new Beta objects carrying the original starting values)
             del calls[:]
             b2, lp2, _ = build(run, name + 'r', 'simple_bounds', save_iterations=False, with_settings=False)
@@ -247,6 +323,9 @@ def main():
             if it is not None:
                 for k, v in it.items():
                     start[k] = float.fromhex(v)
+            for a in run.get('pre') or []:
+                if a[0] in ('estimate_from', 'quick_from'):
+                    start.update({k: float.fromhex(v) for k, v in a[1].items()})
             x0 = [start[n] for n in names2]
             res['x0'] = hxl(x0)
             res['re_init'] = hx(b2.calculate_likelihood(x0, scaled=False))
